@@ -45,7 +45,7 @@ def gate_tables(ctx):
             heap[("T", "input_task_list")] = ListV(plist)
             for i in range(len(preds)):
                 heap[(f"P{i}", "input_task_list")] = ListV([])
-            I = mk_interp(ctx, inline=lambda call, callee, depth: callee.cls == WORKFLOW, collections=colls, max_depth=3)
+            I = mk_interp(ctx, inline=lambda call, callee, depth: callee.cls == WORKFLOW, collections=colls, max_depth=3, unroll_while=4)
             outs = I.run_function(wf_check, bind={"state": E(TS, gate), "time": Poly.sym("t"), "__defaults__": True}, heap=heap)
             hit, total = 0, 0
             for st, ex in outs:
